@@ -566,6 +566,15 @@ def run_C10(run):
     conds = ['n', '_', 'x1', 'd\u00eda', 'x\u540d', 'caf\u00e9', 'x' * 30]
     fixed_c, var_c = ["", " + 'a'", " + AnyDigit()", " + Exactly('a', 2)", " + Either('a', 'b')"], [" + Optional('a')", " + OneOrMore(AnyDigit())", " + Either('a', 'bc')", " + AtMost('a', 2)"]
     cases = [(r + c, True) for r in refs for c in fixed_c] + [(r + c, False) for r in refs for c in var_c]
+    # several references at once (one- and two-digit numbers in either order, numbers next to names), up to 100 distinct outside groups
+    multi = ["Backreference(2) + Backreference(10)", "Backreference(10) + Backreference(2)", "Backreference(9) + Backreference(10)", "Backreference(3) + Backreference(12) + Backreference(1)",
+             "Backreference(99) + Backreference('first')", "Backreference('a') + Backreference('b') + Backreference(98)", "Backreference(20) + Backreference(100 - 1) + Backreference('z9')",
+             "Concat(*[Backreference(k) for k in range(1, 100)])", "Concat(*[Backreference(k) for k in range(99, 0, -7)]) + Backreference('n')"]
+    cases += [(m_, True) for m_ in multi] + [(m_ + " + 'a'", True) for m_ in multi] + [(m_ + c, False) for m_ in multi for c in var_c[:2]]
+    # assertion patterns that are themselves wrapped in lookarounds on both sides around a fixed / variable body
+    for body, fx in (("'b'", True), ("Exactly('b', 3)", True), ("Optional('b')", False), ("OneOrMore(AnyDigit())", False), ("Either('b', 'cc')", False)):
+        cases += [(f"EnclosedBy({body}, 'a')", fx), (f"FollowedBy(PrecededBy({body}, 'a'), 'c')", fx), (f"NotEnclosedBy({body}, 'a')", fx), (f"PrecededBy(NotFollowedBy({body}, 'c'), 'a')", fx),
+                  (f"MatchAtLineStart({body}) + FollowedBy(Pregex(), 'a')" if False else f"NotPrecededBy(FollowedBy({body}, 'c'), 'a')", fx)]
     cases += [("'a' + " + r, True) for r in refs] + [("Optional('a') + " + r, False) for r in refs]
     for nm in conds:
         cases += [(f"Conditional({nm!r}, 'a', 'c')", True), (f"Conditional({nm!r}, AnyDigit(), AnyLetter())", True), (f"Conditional({nm!r}, 'ab', 'cd') + 'e'", True),
